@@ -171,7 +171,8 @@ class ModeController(MpfController):
     def _player_added(cls, player, num, **kwargs):
         del num
         del kwargs
-        player.restart_modes_on_next_ball = list()
+        if not player.is_player_var("restart_modes_on_next_ball"):
+            player.restart_modes_on_next_ball = list()
         '''player_var: restart_modes_on_next_ball
 
         desc: A list of modes that will be restarted when this player's next
@@ -181,6 +182,10 @@ class ModeController(MpfController):
 
     def _player_turn_start(self, player, **kwargs):
         del kwargs
+        if not player.is_player_var("restart_modes_on_next_ball"):
+            # the turn of a player who was added during the previous player's ball may start before his
+            # player_added event has been processed (it waits for the player_adding queue)
+            player.restart_modes_on_next_ball = list()
         for mode in self.machine.modes.values():
             if not mode.is_game_mode:
                 continue
